@@ -254,6 +254,9 @@ func runCaseByIndex(prop, tier string, seed uint64, idx int, keepDir string) *Ca
 	if len(sc.OwnNFunction) > 0 {
 		res.Cov["cases_first_crop_with_n_function_7_8_9"]++
 	}
+	if sc.DeadlineOvertakesSowing {
+		res.Cov["cases_harvest_deadline_behind_next_fixed_sowing"]++
+	}
 	if sc.FileExt != "" {
 		res.Cov["cases_with_fileExtension_argument"]++
 	}
